@@ -65,6 +65,8 @@ struct Stage {
     env: FsEnv,
     raw_svc: s3s::service::S3Service,
     previous: Option<Vec<u8>>,
+    /// the key the write under test addresses
+    key: String,
 }
 
 fn stage(present: bool) -> Stage {
@@ -84,13 +86,13 @@ fn stage(present: bool) -> Stage {
         }
     });
     drop(rt);
-    Stage { env, raw_svc, previous }
+    Stage { env, raw_svc, previous, key: KEY.to_owned() }
 }
 
 fn read_back(st: &Stage) -> Option<Vec<u8>> {
     let rt = fresh_rt(false);
     let r = rt.block_on(async {
-        match st.env.fs.get_object(mk_req(GetObjectInput::builder().bucket(BUCKET.to_owned()).key(KEY.to_owned()).build().unwrap())).await {
+        match st.env.fs.get_object(mk_req(GetObjectInput::builder().bucket(BUCKET.to_owned()).key(st.key.clone()).build().unwrap())).await {
             Ok(r) => {
                 let mut out = Vec::new();
                 if let Some(mut b) = r.output.body {
@@ -180,7 +182,10 @@ fn judge(c: &mut Case<'_>, st: &Stage, before: &Snapshot, attempt: &Attempt, new
     let changes = changed_paths(before, &after);
     if !changes.is_empty() {
         let leftover_only = changes.iter().all(|(_, how)| *how == "created");
-        let class = if fault_name.starts_with("drop-after") { "abandoned" } else { fault_name };
+        // an abandoned request that left an *empty* file went away before the first body byte was written (the listed
+        // finding: dropped while the temporary file was being created); a leftover that holds data is something else
+        let with_data = changes.iter().any(|(p, how)| *how == "created" && std::fs::metadata(st.env.sandbox.join(p)).is_ok_and(|m| m.is_file() && m.len() > 0));
+        let class = if fault_name.starts_with("drop-after") { if with_data { "abandoned-with-data" } else { "abandoned" } } else { fault_name };
         let sig = if leftover_only { format!("leftover-file:{class}") } else { fault_sig.to_owned() };
         return Err(c.fail(sig, format!("{fault_name}: after the unsuccessful write (polls {}) the directory tree differs from the snapshot: {:?}", attempt.polls, changes.iter().map(|(p, h)| format!("{h} {}", p.display())).collect::<Vec<_>>())));
     }
@@ -233,6 +238,35 @@ fn single_writer(c: &mut Case<'_>, present: bool, n_frames: usize, fault: Fault)
     }
     c.fp(&(&name, present, n_frames));
     judge(c, &st, &before, &attempt, &content, name.split('@').next().unwrap_or(""), &sig)
+}
+
+/// The write cannot be committed because of what the store already holds: the key names an existing "directory"
+/// (kind 0: another object lives below it) or lies below an existing object (kind 1).  Whatever the answer is,
+/// it is all-or-nothing; optionally the request is also abandoned after `drop_after` polls.
+fn conflict_writer(c: &mut Case<'_>, kind: usize, n_frames: usize, drop_after: Option<usize>) -> CaseResult {
+    let mut st = stage(false);
+    let (blocker, target) = if kind == 0 { (format!("{KEY}/child"), KEY.to_owned()) } else { ("blocker".to_owned(), "blocker/child/object.bin".to_owned()) };
+    {
+        let rt = fresh_rt(false);
+        rt.block_on(async {
+            st.env.fs.put_object(mk_req(PutObjectInput::builder().bucket(BUCKET.to_owned()).key(blocker.clone()).body(Some(blob(b"the object that is in the way"))).build().unwrap())).await.expect("blocker put");
+        });
+        drop(rt);
+    }
+    st.key = target.clone();
+    st.previous = read_back(&st);
+    let frames = payload(c, n_frames);
+    let content: Vec<u8> = frames.concat();
+    let before = snapshot(&st.env.sandbox);
+    let headers = vec![("content-length".to_owned(), content.len().to_string())];
+    let steps: Vec<Step> = frames.iter().map(|f| Step::Data(Bytes::copy_from_slice(f))).collect();
+    let attempt = run_put(&st.raw_svc, headers, steps, drop_after, &format!("/{BUCKET}/{target}"));
+    let name = if drop_after.is_some() { "drop-after-p-polls+path-conflict" } else { "path-conflict" };
+    c.label(format!("fault:{name}"));
+    c.label(format!("conflict:{}", if kind == 0 { "key-is-a-directory" } else { "key-below-an-object" }));
+    c.nontrivial();
+    c.fp(&(name, kind, n_frames, drop_after));
+    judge(c, &st, &before, &attempt, &content, if drop_after.is_some() { "drop-after" } else { "path-conflict" }, "partial-write:path-conflict")
 }
 
 fn chunked_writer(c: &mut Case<'_>, present: bool, n_chunks: usize, bad: usize) -> CaseResult {
@@ -335,8 +369,63 @@ fn concurrent(c: &mut Case<'_>, multi_thread: bool) -> CaseResult {
     Ok(())
 }
 
+/// many rounds of simultaneously released writers on one store (8 worker threads, a barrier in front of the calls):
+/// races that need two writers inside a window of a few instructions get many chances per case
+fn concurrent_burst(c: &mut Case<'_>) -> CaseResult {
+    let st = stage(c.t.bool());
+    let rt = tokio::runtime::Builder::new_multi_thread().worker_threads(8).enable_all().build().unwrap();
+    let rounds = 120;
+    c.nontrivial();
+    c.label("runtime:multi-thread-burst");
+    let mut sizes_seen = Vec::new();
+    for round in 0..rounds {
+        let n = 2 + c.t.below(7);
+        let contents: Vec<Vec<u8>> = (0..n).map(|i| vec![b'a' + i as u8; 1 + c.t.below(3000) + round]).collect();
+        let barrier = std::sync::Arc::new(tokio::sync::Barrier::new(n));
+        let statuses: Vec<u16> = rt.block_on(async {
+            let handles: Vec<_> = contents
+                .iter()
+                .map(|content| {
+                    let svc = st.raw_svc.clone();
+                    let barrier = barrier.clone();
+                    let req = http::Request::builder().method("PUT").uri(format!("/{BUCKET}/{KEY}")).header("host", "s3.example.test").header("content-length", content.len().to_string()).body(s3s::Body::from(content.clone())).unwrap();
+                    tokio::spawn(async move {
+                        barrier.wait().await;
+                        match svc.call(req).await {
+                            Ok(r) => drain_response(r).await.status,
+                            Err(_) => 0,
+                        }
+                    })
+                })
+                .collect();
+            let mut out = Vec::new();
+            for h in handles {
+                out.push(h.await.unwrap_or(0));
+            }
+            out
+        });
+        let got = read_back(&st);
+        sizes_seen.push(n);
+        let ok_writers: Vec<usize> = statuses.iter().enumerate().filter(|(_, s)| **s < 300 && **s > 0).map(|(i, _)| i).collect();
+        c.set_sample(|| json!({"round": round, "writers": n, "statuses": statuses, "final_len": got.as_ref().map(Vec::len)}));
+        match &got {
+            Some(g) if contents.iter().enumerate().any(|(i, x)| x == g && ok_writers.contains(&i)) => {}
+            other => {
+                return Err(c.fail("concurrent-writers-mixed", format!("round {round}: {n} simultaneously released writers (statuses {statuses:?}): final content of {:?} bytes is not exactly one successful writer's content (sizes {:?})", other.as_ref().map(|g| g.len()), contents.iter().map(Vec::len).collect::<Vec<_>>())));
+            }
+        }
+        let leftovers: Vec<_> = snapshot(&st.env.sandbox).keys().filter(|p| p.to_string_lossy().contains(".tmp.")).cloned().collect();
+        if !leftovers.is_empty() {
+            return Err(c.fail("leftover-file:concurrent", format!("round {round}: {n} simultaneously released writers left {leftovers:?}")));
+        }
+    }
+    drop(rt);
+    c.fp(&sizes_seen);
+    Ok(())
+}
+
 pub fn run(r: &mut Runner) {
-    r.rule = "uploads of 1..8 frames x previous state {absent, present} x fault {none, body error at every frame k, request future dropped after every number of polls p up to completion, wrong checksum for each algorithm the backend checks, corrupted chunk signature in chunk k of a chunk-signed upload}, each on its own runtime which is dropped to let the blocking pool quiesce; then GET must return the previous content (or nothing) unless the upload was reported successful, and the directory tree must equal the snapshot taken before. Concurrent writers (2..8, distinct contents) interleaved by harness-owned Pending schedules on a current-thread runtime, and on a multi-thread runtime: final content is exactly one successful writer's bytes, no extra file. Non-trivial: any fault or >=2 writers; distinct by (fault, position, previous state, frame count).".into();
+    r.rule = "uploads of 1..8 frames x previous state {absent, present} x fault {none, body error at every frame k, request future dropped after every number of polls p up to completion, wrong checksum for each algorithm the backend checks, corrupted chunk signature in chunk k of a chunk-signed upload, a key that cannot be committed because it names an existing directory or lies below an existing object (alone and abandoned after every number of polls)}, each on its own runtime which is dropped to let the blocking pool quiesce; then GET must return the previous content (or nothing) unless the upload was reported successful, and the directory tree must equal the snapshot taken before. Concurrent writers (2..8, distinct contents) interleaved by harness-owned Pending schedules on a current-thread runtime, and on a multi-thread runtime (also in bursts of 120 rounds of barrier-released writers on 8 worker threads): final content is exactly one successful writer's bytes, no extra file. Non-trivial: any fault or >=2 writers; distinct by (fault, position, previous state, frame count).".into();
     r.assumptions = vec![
         "dropping a tokio runtime waits for blocking-pool work that has already started".into(),
         "true-parallel interleavings inside the kernel / blocking pool are sampled, not owned, in the multi-thread mode".into(),
@@ -366,6 +455,8 @@ pub fn run(r: &mut Runner) {
         let n = if (idx / 2) % 2 == 0 { 1 } else { 3 };
         single_writer(c, present, n, Fault::DropAfterPolls(p))
     });
+    r.exhaustive("path-conflict", 2 * 3, |idx, c| conflict_writer(c, (idx % 2) as usize, 1 + (idx / 2) as usize, None));
+    r.exhaustive("path-conflict-drop-after-every-poll", 2 * max_polls, |idx, c| conflict_writer(c, (idx % 2) as usize, 2, Some((idx / 2) as usize)));
     r.exhaustive("bad-checksum-every-algorithm", 4 * 2, |idx, c| {
         let alg = ["crc32", "crc32c", "sha1", "sha256"][(idx / 2) as usize];
         single_writer(c, idx % 2 == 1, 2, Fault::BadChecksum(alg))
@@ -389,5 +480,10 @@ pub fn run(r: &mut Runner) {
     });
     r.search("concurrent-scheduled", r.scale(150, 5_000), 128, |c| concurrent(c, false));
     r.search("concurrent-multi-thread", r.scale(100, 3_000), 128, |c| concurrent(c, true));
+    // few engine workers here: each case owns an 8-thread runtime and needs real parallelism for its writers
+    let workers = r.workers;
+    r.workers = 2;
+    r.search("concurrent-burst", r.scale(12, 300), 2048, concurrent_burst);
+    r.workers = workers;
     let _ = Fault::ChunkSignature(0);
 }
